@@ -60,8 +60,6 @@ TRIAGE_PARTIAL = {
     ('parse', 'e.args[0]'):
         'ProductionError is only raised with one argument (checked by '
         'R12.1)',
-    ('broken_string_token_handler', 'failure[0]'):
-        'guarded by the truthiness of the slice in the same condition',
 }
 
 
@@ -78,6 +76,78 @@ def always_raises(stmts):
             always_raises(last.body) and all(
                 always_raises(h.body) for h in last.handlers))
     return False
+
+
+def dominating_guards(fdef, target):
+    """texts of the conjuncts of the if-tests (true branch) that enclose
+    `target`, plus the left operands of an enclosing `and`"""
+    out = []
+
+    def conj(t):
+        if isinstance(t, ast.BoolOp) and isinstance(t.op, ast.And):
+            for v in t.values:
+                conj(v)
+        else:
+            out.append(ast.unparse(t))
+
+    def rec(node):
+        for field, value in ast.iter_fields(node):
+            items = value if isinstance(value, list) else [value]
+            for c in items:
+                if not isinstance(c, ast.AST):
+                    continue
+                if c is target or any(x is target for x in ast.walk(c)):
+                    if isinstance(node, ast.If) and field == 'body':
+                        conj(node.test)
+                    if isinstance(node, ast.BoolOp) and isinstance(
+                            node.op, ast.And):
+                        for v in node.values:
+                            if v is c:
+                                break
+                            conj(v)
+                    rec(c)
+                    return
+    rec(fdef)
+    return out
+
+
+def guard_values(guards, subscript):
+    """constants the dominating guards restrict `name[k]` to, via
+    `name[k] in (...)`, `name[k:k+1] in (...)` or `== c`; None if no such
+    guard"""
+    if not (isinstance(subscript, ast.Subscript) and isinstance(
+            subscript.value, ast.Name)):
+        return None
+    name = subscript.value.id
+    try:
+        k = ast.literal_eval(subscript.slice)
+    except Exception:
+        return None
+    if not isinstance(k, int):
+        return None
+    lefts = ('%s[%d]' % (name, k), '%s[%d:%d]' % (name, k, k + 1))
+    for g in guards:
+        try:
+            t = ast.parse(g, mode='eval').body
+        except SyntaxError:
+            continue
+        if isinstance(t, ast.Compare) and len(t.ops) == 1 and \
+                ast.unparse(t.left) in lefts:
+            try:
+                c = ast.literal_eval(t.comparators[0])
+            except Exception:
+                continue
+            if isinstance(t.ops[0], ast.In) and isinstance(
+                    c, (tuple, list, set, str)):
+                vals = list(c)
+            elif isinstance(t.ops[0], ast.Eq) and isinstance(c, str):
+                vals = [c]
+            else:
+                continue
+            if vals and all(isinstance(v, str) and len(v) == 1
+                            for v in vals):
+                return vals
+    return None
 
 
 def norm_call(f):
@@ -365,18 +435,19 @@ def run(report, index, tier):
                 if id(n) in guarded_by_try:
                     r3.ok(construct, 'inside try/except IndexError')
                     continue
+                guards = dominating_guards(f, n)
                 if isinstance(n.value, ast.Dict):
                     keys = [k.value for k in n.value.keys
                             if isinstance(k, ast.Constant)]
                     kt = ast.unparse(n.slice)
-                    guard = any(
-                        isinstance(x, ast.Compare) and ast.unparse(
-                            x.left) == kt and isinstance(
-                            x.ops[0], ast.In) for x in ast.walk(f))
-                    r3.check(guard, key, construct,
+                    allowed = guard_values(guards, n.slice)
+                    ok = allowed is not None and set(allowed) <= set(keys)
+                    r3.check(ok, key, construct,
                              'dict literal with keys %s is indexed by `%s`, '
-                             'an input character that no guard restricts '
-                             'to those keys: KeyError' % (keys, kt),
+                             'an input character that no dominating guard '
+                             'restricts to those keys%s: KeyError' % (
+                                 keys, kt, '' if allowed is None else
+                                 ' (guard admits %s)' % sorted(allowed)),
                              where=where)
                     continue
                 if isinstance(n.value, ast.Name) and n.value.id in slices \
@@ -385,13 +456,16 @@ def run(report, index, tier):
                     k = n.slice.value
                     name = n.value.id
                     need = k + 1 if k >= 0 else -k
-                    # guards: truthiness (len>=1) or len(name) > k
                     ok = False
-                    if need == 1 and ('%s and ' % name) in src:
+                    if need == 1 and any(
+                            name in implied for implied in guards):
                         ok = True
-                    if 'len(%s) > %d' % (name, k) in src or \
-                            'len(%s) >= %d' % (name, need) in src:
-                        ok = True
+                    if guard_values(guards, n) is not None:
+                        ok = True      # name[k:k+1] in (non-empty ...)
+                    for gtext in guards:
+                        if 'len(%s) > %d' % (name, k) in gtext or \
+                                'len(%s) >= %d' % (name, need) in gtext:
+                            ok = True
                     if ok:
                         r3.ok(construct, 'length guard')
                     elif (f.name, t) in TRIAGE_PARTIAL:
